@@ -19,75 +19,63 @@ open Conv
 
 /-! ### format_int / parse_int -/
 
-/-- `format_radix` panics exactly at `i64::MIN` (`-x` overflows), for every base. -/
-theorem formatRadix_panics_iff (n : Int) (b : Nat) : formatRadix n b = .panic ↔ n = i64Min := by
-  unfold formatRadix
-  constructor
-  · intro h
-    split at h
-    · split at h
-      · assumption
-      · cases h
-    · cases h
-  · intro h
-    subst h
-    simp [i64Min]
+/-- `format_radix` never panics (the magnitude is taken with `unsigned_abs`; before the repair
+    6983af4 `-x` overflowed at `i64::MIN`). -/
+theorem formatRadix_never_panics (n : Int) (b : Nat) : formatRadix n b ≠ .panic := by
+  rw [formatRadix_eq_signedText]; intro h; cases h
 
-/-- the text `format_int` produces for `n ≠ i64::MIN` parses back to `n` in the same base:
-    every base 2–36, every `i64`. -/
+/-- the text `format_int` produces parses back to `n` in the same base:
+    every base 2–36, every `i64`, `i64::MIN` included. -/
 theorem fromStrRadix_formatRadix (n : Int) (b : Nat) (hb2 : 2 ≤ b) (hb36 : b ≤ 36)
-    (hn : inI64 n = true) (hmin : n ≠ i64Min) :
+    (hn : inI64 n = true) :
     ∃ s, formatRadix n b = .ok s ∧ fromStrRadix s b = some n :=
-  ⟨_, formatRadix_eq_signedText n b hmin, fromStrRadix_signedText n b hb2 hb36 hn⟩
+  ⟨_, formatRadix_eq_signedText n b, fromStrRadix_signedText n b hb2 hb36 hn⟩
 
-/-- C25 (int): `parse_int(format_int(n, b), b) = n` for every base 2–36 and every `i64` other
-    than `i64::MIN` (where `format_int` panics: `format_int_min_panics`). -/
-theorem parse_format_int (n b : Int) (hd : intDomain n b = true) (hmin : n ≠ i64Min) :
+/-- C25 (int): `parse_int(format_int(n, b), b) = n` for every base 2–36 and every `i64`
+    (full statement; `i64::MIN` included since the repair 6983af4). -/
+theorem parse_format_int (n b : Int) (hd : intDomain n b = true) :
     ∃ s, formatInt (.int n) (.int b) = .ok (.bytes s) ∧
       parseInt (.bytes s) (some (.int b)) = .ok (.int n) := by
   simp only [intDomain, Bool.and_eq_true, decide_eq_true_eq] at hd
   obtain ⟨⟨hn, hb2⟩, hb36⟩ := hd
-  obtain ⟨s, hf, hp⟩ := fromStrRadix_formatRadix n b.toNat (by omega) (by omega) hn hmin
+  obtain ⟨s, hf, hp⟩ := fromStrRadix_formatRadix n b.toNat (by omega) (by omega) hn
   refine ⟨s, ?_, ?_⟩
   · simp [formatInt, hb2, hb36, hf, Res.map]
   · simp [parseInt, hb2, hb36, hp, optToRes, Res.map]
 
 /-- with both `base` arguments absent (`format_int` defaults to 10, `parse_int` detects the base
-    from the prefix) the round trip holds as well. -/
-theorem parse_format_int_default (n : Int) (hn : inI64 n = true) (hmin : n ≠ i64Min) :
+    from the prefix) the round trip holds as well, for every `i64`. -/
+theorem parse_format_int_default (n : Int) (hn : inI64 n = true) :
     ∃ s, formatInt (.int n) (.int 10) = .ok (.bytes s) ∧ parseInt (.bytes s) none = .ok (.int n) := by
   refine ⟨signedText 10 n, ?_, parseInt_auto_signedText n hn⟩
-  simp [formatInt, formatRadix_eq_signedText n 10 hmin, Res.map]
+  simp [formatInt, formatRadix_eq_signedText n 10, Res.map]
 
-/-- the same statement through the Spec predicate the oracle evaluates. -/
-theorem specInt_model (n b : Int) (hmin : n ≠ i64Min) :
+/-- the same statement through the Spec predicate the oracle evaluates: no exception left. -/
+theorem specInt_model (n b : Int) :
     specInt n b (formatInt (.int n) (.int b))
       ((formatInt (.int n) (.int b)).bind fun s => parseInt s (some (.int b))) = true := by
   unfold specInt
   by_cases hd : intDomain n b = true
-  · obtain ⟨s, hf, hp⟩ := parse_format_int n b hd hmin
+  · obtain ⟨s, hf, hp⟩ := parse_format_int n b hd
     simp [hf, Res.bind, hp, restores]
   · simp [hd]
 
-/-- witness of the known finding `format_int:D_min_negate`: at `i64::MIN` the implementation
-    panics ("attempt to negate with overflow"), for every admissible base. -/
-theorem format_int_min_panics (b : Int) (hb2 : 2 ≤ b) (hb36 : b ≤ 36) :
-    formatInt (.int i64Min) (.int b) = .panic := by
-  have h : formatRadix i64Min b.toNat = .panic := (formatRadix_panics_iff _ _).mpr rfl
-  simp [formatInt, hb2, hb36, h, Res.map]
-
-/-- `format_int` panics only there: the finding class is the exact complement of the theorem. -/
-theorem format_int_panics_iff (n b : Int) :
-    formatInt (.int n) (.int b) = .panic ↔ (n = i64Min ∧ 2 ≤ b ∧ b ≤ 36) := by
+/-- `format_int` never panics, whatever its arguments are. -/
+theorem format_int_never_panics (v base : Value) : formatInt v base ≠ .panic := by
   unfold formatInt
-  by_cases hb : 2 ≤ b ∧ b ≤ 36
-  · simp only [hb, and_self, ↓reduceIte, and_true]
-    rw [← formatRadix_panics_iff n b.toNat]
-    cases formatRadix n b.toNat <;> simp [Res.map]
-  · simp only [hb, ↓reduceIte]
-    constructor
-    · intro h; cases h
-    · intro h; exact h.2.elim
+  cases v <;> try (intro h; cases h)
+  cases base <;> try (intro h; cases h)
+  simp only
+  split
+  · rw [formatRadix_eq_signedText]; intro h; cases h
+  · intro h; cases h
+
+/-- at `i64::MIN` (the input that used to panic): the full magnitude 2⁶³ is printed. -/
+theorem format_int_min :
+    formatInt (.int i64Min) (.int 10) = .ok (.bytes
+      [45, 57, 50, 50, 51, 51, 55, 50, 48, 51, 54, 56, 53, 52, 55, 55, 53, 56, 48, 56]) ∧
+    formatInt (.int i64Min) (.int 16) = .ok (.bytes
+      [45, 56, 48, 48, 48, 48, 48, 48, 48, 48, 48, 48, 48, 48, 48, 48, 48]) := by decide
 
 /-- bases outside 2..=36 are an error, never a panic (even for `i64::MIN`). -/
 theorem format_int_bad_base (n b : Int) (hb : ¬ (2 ≤ b ∧ b ≤ 36)) :
